@@ -1,9 +1,9 @@
 (* Properties_C14.v — a random file is a stable, 1-based sequence of independent records.
    The handle operations are the functions the evaluator calls (Files.v: rf_seek, rf_put, rf_get).
-   PARTIAL: stability across CLOSEFILE/OPENFILE and restart is the record <-> line mapping of
-   Codec.v (load_records / store_records); it is checked by the correspondence and by the explicit
-   list-and-cursor oracle on reopen/restart histories, not proved here. *)
-From PE2 Require Import Files Lemmas_Arrays Lemmas_Files.
+   Stability across CLOSEFILE/OPENFILE and restart is the record <-> line mapping of Codec.v
+   (store_records at close, load_records at open): proved for every sequence of records in which each record is
+   line safe, not empty and does not start with '#' -- which every value the codec writes is (Properties_C13). *)
+From PE2 Require Import Files Lemmas_Arrays Lemmas_Files Lemmas_Codec Lemmas_RecLines.
 Local Open Scope Z_scope.
 
 Theorem C14_seek_exact : forall f k, (exists f', rf_seek f k = Some f') <-> 1 <= k <= nrecs f + 1.
@@ -42,6 +42,29 @@ Theorem C14_history : forall ops f outs0, handle_ok f ->
   abs_rf f' = sp' /\ outs = outs' /\ handle_ok f'.
 Proof. exact history_refines. Qed.
 Print Assumptions C14_history.
+
+(* CLOSEFILE writes the records, OPENFILE reads them: the same sequence, whatever the records contain *)
+Theorem C14_sequence_survives_close_and_open : forall rs,
+  Forall (fun r => line_safe r = true /\ r <> [] /\ starts_hash r = false) rs -> load_records (store_records rs) = rs.
+Proof. exact load_store_records. Qed.
+Print Assumptions C14_sequence_survives_close_and_open.
+
+(* on the handle table and the disk: closing a modified random file and opening the name again gives a handle on the
+   same records, cursor on the first; the disk is what the close wrote *)
+Theorem C14_close_then_reopen : forall f s, of_mode f = FRandom -> of_modified f = true -> os_name_ok (of_name f) = true ->
+  Forall rec_ok (of_recs f) ->
+  exists s1 s2, close_file_effect f s = (Ok Datatypes.tt, s1) /\ s_files s1 = s_files s /\
+                create_file (of_name f) FRandom s1 = (Ok true, s2) /\ s_fs s2 = s_fs s1 /\
+                s_files s2 = s_files s ++ [mkOfile (of_name f) FRandom [] (of_recs f) 0 false].
+Proof. exact close_then_reopen. Qed.
+Print Assumptions C14_close_then_reopen.
+
+Example C14_records_with_line_breaks_reopen :
+  let rs := [str_of_string "STRING 5 a
+##b"; str_of_string "CHAR 
+#"; str_of_string "INTEGER 7"] in
+  Forall rec_ok rs /\ Z.of_nat (List.length (split_lines (store_records rs))) = 6 /\ load_records (store_records rs) = rs.
+Proof. split; [repeat constructor; discriminate|]. split; vm_compute; reflexivity. Qed.
 
 Example C14_fresh_handle_ok : handle_ok (mkOfile (str_of_string "a.dat") FRandom [] [] 0 false) /\
   handle_ok (mkOfile (str_of_string "a.dat") FRandom [] [str_of_string "r1"; str_of_string "r2"] 2 true).
